@@ -149,6 +149,18 @@ def c16(res: CheckResult) -> None:
               list(F.fam_order_seq(res.tier, rng)), ic)
     call_unit(res, "coroutine functions mixing plain and coroutine-function conditions",
               list(F.fam_order_mixed_async(res.tier, rng)), ic)
+    # a violated lambda condition is re-evaluated once for the message: every operand at most once more
+    from icv import exprcheck as E
+    cases = E.make_cases(E.fam_typeof(rng), rng, envs_per_expr=0)
+    r, viol, py = E.model_check_expr(cases)
+    if not r.ok:
+        from icv.result import MachineryError
+        raise MachineryError("ICExpr: {}".format(r.violated or r.error))
+    res.states += r.distinct
+    res.transitions += r.states
+    st = E.check_cases(res, EXPR_CLAUSES, cases, viol, py, ic)
+    res.traces += st["cases"]
+    res.add_unit("comparison chains over calls: operands evaluated at most once while the message is built", **st)
     random_unit(res, "random programs beyond the exhaustive bounds", list(F.fam_random(res.tier, rng, "order")), ic)
     _passive(res)
 
@@ -334,7 +346,7 @@ def c05(res: CheckResult) -> None:
 
 
 # ---- violation messages ----------------------------------------------------------------------------------
-EXPR_CLAUSES = {"msg.replaced_by_other_exception": {"C07"}, "msg.text": {"C07"}, "msg.header": {"C07"},
+EXPR_CLAUSES = {"msg.operand_evaluated_again": {"C16", "C07"}, "msg.replaced_by_other_exception": {"C07"}, "msg.text": {"C07"}, "msg.header": {"C07"},
                 "msg.layout_differs": {"C07"}, "msg.touched_skipped_node": {"C07"},
                 "msg.value_missing": {"C06"}, "msg.value_unsound": {"C06"}, "msg.unsorted": {"C20"}}
 EXPR_ASSUMPTIONS = COMMON_ASSUMPTIONS + [
@@ -357,7 +369,8 @@ def _expr_run(res: CheckResult, layouts: bool) -> None:
             ("calls / subscripts / attributes / operators over boolean, conditional and comparison sub-expressions",
              E.fam_nested(rng, budget), 10 if res.tier == "quick" else 24),
             ("guard patterns (later operands defined only if earlier ones hold)", E.fam_guards(rng, budget),
-             10 if res.tier == "quick" else 24)]
+             10 if res.tier == "quick" else 24),
+            ("calls returning classes; comparison chains over calls", E.fam_typeof(rng), 0)]
     for name, exprs, per in fams:
         cases = E.make_cases(exprs, rng, envs_per_expr=per)
         r, viol, py = E.model_check_expr(cases)
